@@ -45,6 +45,42 @@ Fixpoint all_origins_eqb (a b : list model) : bool :=
   | _, _ => false
   end.
 
+(* ---------- copies: conditions on the RESULT of a successful copy, decided by running the model.
+   c = the copy, h = the destination, w = the world before, w' = the world after. *)
+Definition node_ok (w' : world) (j : id) : bool :=
+  match w_nodes w' j with
+  | Some n =>
+    (* an identifiable element has an item name (finding C13-copy-nameless-shortname otherwise) *)
+    (negb (identifiable_n T w' n) || match item_name_n T w' n with Some _ => true | None => false end)
+    (* the text of a SHORT-NAME element has no '/', elements with character content have at most one text item *)
+    && (negb (n_name n =? name_short_name T) || match cdata_of T n with Some (DString s) => negb (existsb (N.eqb 47) s) | _ => true end)
+    && (match content_mode T (n_type n) with
+        | Val md => negb (md =? MCharacters) || match n_content n with [] => true | [CData _] => true | _ => false end
+        | _ => true end)
+  | None => false
+  end.
+Definition copy_clean (w w' : world) (h c : id) : bool :=
+  match w_nodes w h with
+  | Some nh =>
+    match path_unchecked T nh w with
+    | Val (OK path, _) =>
+      let w3 := mkWorld (fun j => if j =? h then Some nh else w_nodes w' j) (w_next w') (w_files w') (w_models w') in
+      let ids := walk (fuel_of w') w' c in
+      match reg_entries T (fuel_of w') w3 path c with
+      | Some (L, R) =>
+        (* every node allocated by the call belongs to the copy (no garbage of dropped sub-elements), once *)
+        nodupN ids && (N.of_nat (List.length ids) =? w_next w' - w_next w)
+        (* no two identifiable elements of the copy get the same path; a copy that is not identifiable itself holds
+           no identifiable element (finding C04-copy-container-duplicates-paths otherwise) *)
+        && nodupb (map fst L) && nodupN (map snd R) && (identifiable T w' c || is_empty L)
+        && forallb (node_ok w') ids
+      | None => false
+      end
+    | _ => false
+    end
+  | None => false
+  end.
+
 (* K05-setref: Element::set_reference_target updates reference_origins BEFORE the text write, which can still fail
    (the target path does not pass the reference type's check): the call returns an error, the element keeps its old
    text (or none), but it is now listed under the new path.  Decided by running the model. *)
@@ -70,6 +106,13 @@ Definition Known05 (w : world) (o : op) : bool :=
   | OpSetRefTarget _ _ =>
     match run_op T tab_el tab_en check_fn LATEST root_attrs o w with
     | Val (ER _, w') => negb (all_origins_eqb (w_models w) (w_models w'))
+    | _ => false
+    end
+  | OpCopy h _ | OpCopyAt h _ _ =>
+    (* a failed copy that left allocated garbage; a successful copy whose result is not clean (copy_clean) *)
+    match run_op T tab_el tab_en check_fn LATEST root_attrs o w with
+    | Val (ER _, w') => negb (w_next w' =? w_next w)
+    | Val (OK (VElem c), w') => negb (copy_clean w w' h c)
     | _ => false
     end
   | OpMove h mv | OpMoveAt h mv _ =>
